@@ -324,6 +324,29 @@ def run(F, R, tier):
                     det.append(sorted(map(str, org)))
                     if not org or not all(x[0] == "call" and q.ends(x[1], "get_provision_failed_state_message") for x in org):
                         okm = False
+        # the channel state used by is_secure_channel_latched(): the key keeper's answer, "Unknown" when it cannot be asked - never a
+        # value that the negative test (!= disabled && != Unknown) would read as latched
+        oks, dets = bool(aggs), []
+        for bi, s in aggs:
+            names = s["rv"].get("fields") or []
+            for i, o in enumerate(s["rv"]["ops"]):
+                if i < len(names) and names[i] == "key_keeper_secure_channel_state":
+                    org = Bg.origins(o)
+                    lossy = q.lossy_via(Bg, o)
+                    dflt = set()
+                    for bi2, w2, r2, t2 in Bg.calls_named("Result::unwrap_or"):
+                        ro = Bg.origins(t2["args"][0])
+                        if ro and all(x[0] == "call" and q.ends(x[1], "get_current_secure_channel_state") for x in ro):
+                            from lib import contracts as _c
+                            dflt |= _c.const_names(Bg, t2["args"][1])
+                    dets.append((sorted(map(str, org)), lossy, sorted(dflt)))
+                    if not org or not all(x[0] == "call" and q.ends(x[1], "get_current_secure_channel_state") for x in org) \
+                            or lossy != ["unwrap_or"] or dflt != {"UNKNOWN_STATE"}:
+                        oks = False
+        R.check(oks and dets, "C16.R5", "C16.R5:%s:channel-state-default" % gi["id"], "%s:%s" % (gi["file"], gi["line"]),
+                "the channel state is the key keeper's answer, or UNKNOWN_STATE when the key keeper cannot be asked",
+                "the channel state of the provision reply falls back to something other than UNKNOWN_STATE (%s): an unreachable key keeper "
+                "would read as 'latched' and the query would answer finished" % dets)
         R.check(okm and det, "C16.R5", "C16.R5:%s:error-text-source" % gi["id"], "%s:%s" % (gi["file"], gi["line"]),
                 "ProvisionStateInternal.error_message is get_provision_failed_state_message() on every path (the text names the subsystems "
                 "not ready at the time of the query, whatever the finished tick)",
